@@ -763,6 +763,7 @@ func runC12(w *World) *Result {
 	c12CloseAfterNewline(w, r)
 	c12EOFNotEaten(w, r)
 	c12ArmNeedsNewline(w, r)
+	c12NilStatement(w, r)
 	c12EOF(w, r)
 	SignRule(w, r, "R-C12-sign")
 	return r
@@ -2510,5 +2511,83 @@ func c12ArmNeedsNewline(w *World, r *Result) {
 	}
 	if n == 0 {
 		r.Ok(rule, "needs-newline:none", "-", "no arm of the lexer depends on a line break being found in the rest of the input")
+	}
+}
+
+// c12NilStatement (R-C12-nl, clause "nil-statement"): a blank or comment-only line yields no
+// statement (a nil value that the block reader tests for). Such a value must not be recorded
+// anywhere outside the not-nil side of that test: recorded as "the last statement" it makes
+// the blank line visible to later checks (a function must end in return — unless an empty
+// line follows the return).
+func c12NilStatement(w *World, r *Result) {
+	rule := "R-C12-nl"
+	pkg := w.Pkgs["parser"].Types
+	so := pkg.Scope().Lookup("Statement")
+	if so == nil {
+		return
+	}
+	stmtIface, _ := so.Type().Underlying().(*types.Interface)
+	n := 0
+	for _, fn := range w.Funcs("parser") {
+		perFn := 0
+		// values that are tested against nil: may be "no statement"
+		type test struct {
+			v       ssa.Value
+			nonNil  *ssa.BasicBlock
+			theTest *ssa.BasicBlock
+		}
+		var tests []test
+		for _, b := range fn.Blocks {
+			cnd, neg := condOf(b)
+			bo, ok := cnd.(*ssa.BinOp)
+			if !ok || (bo.Op != token.NEQ && bo.Op != token.EQL) {
+				continue
+			}
+			var v ssa.Value
+			if k, ok := bo.Y.(*ssa.Const); ok && k.IsNil() {
+				v = bo.X
+			} else if k, ok := bo.X.(*ssa.Const); ok && k.IsNil() {
+				v = bo.Y
+			}
+			if v == nil || stmtIface == nil || !types.Implements(v.Type(), stmtIface) {
+				continue
+			}
+			if _, isIface := v.Type().Underlying().(*types.Interface); !isIface {
+				continue
+			}
+			nonNil := b.Succs[0]
+			if (bo.Op == token.EQL) != neg {
+				nonNil = b.Succs[1]
+			}
+			tests = append(tests, test{v, nonNil, b})
+		}
+		for _, t := range tests {
+			if naturalLoops(fn)[t.theTest] == nil {
+				continue // only the statement loop of a block reader
+			}
+			refs := t.v.Referrers()
+			if refs == nil {
+				continue
+			}
+			for _, ref := range *refs {
+				st, ok := ref.(*ssa.Store)
+				if !ok || st.Val != t.v {
+					continue
+				}
+				n++
+				perFn++
+				key := fmt.Sprintf("nl:nil-statement:%s#%d", FuncName(fn), perFn)
+				guarded := st.Block() == t.nonNil || (t.nonNil.Dominates(st.Block()) && len(t.nonNil.Preds) == 1)
+				// the varargs array of append(list, stmt) on the not-nil side is the normal case
+				if guarded {
+					r.Ok(rule, key, w.Pos(st.Pos()), "the statement is recorded on the not-nil side of its test only")
+				} else {
+					r.Bad(rule, key, w.Pos(st.Pos()), "a value that is nil for a blank or comment-only line is recorded without regard to the nil test: an empty line is then seen as \"the last statement\" by later checks, so inserting one (after a final return, for instance) changes whether the program is accepted")
+				}
+			}
+		}
+	}
+	if n == 0 {
+		r.Triv(rule, "nl:nil-statement:none", "-", "no statement value that may be nil is recorded")
 	}
 }
